@@ -90,43 +90,58 @@ func genValidSigner(t *rapid.T, kind string) Signer {
 	return s
 }
 
-// hugeNameLength reports whether the (tampered) buffer holds, anywhere the NDN container
-// structure leads to, a Name element whose announced length exceeds the buffer. The
-// generated decoders allocate length/2+1 components for a Name *before* reading it
-// (a C04 finding, owned by the robustness checks): with a flipped 5-byte length that is a
-// multi-gigabyte allocation, i.e. a fatal out-of-memory error that no recover() contains.
-// Such flips are not executed (and counted) so that the C12 search can continue behind
-// them; set VERIF_C12_NOSCREEN=1 to run them once the decoders bound that allocation.
-func hugeNameLength(buf []byte) bool {
-	var scan func(lo, hi int, path []uint64, depth int) bool
-	scan = func(lo, hi int, path []uint64, depth int) bool {
-		for off := lo; off < hi; {
+// fatalAllocation reports whether the (tampered) buffer holds -- anywhere a decoder can be
+// led to, following the NDN container structure and, like the decoders, re-reading the
+// value of an element that overflows its parent as siblings -- a Name, KeyDigest,
+// FinalBlockId or SignatureNonce element whose announced length exceeds the whole buffer.
+// The generated decoders allocate for these from the announced length *before* reading
+// (make(enc.Name, l/2+1), make([]byte, l)): with a flipped 5- or 9-byte length that is a
+// multi-gigabyte request, i.e. a fatal out-of-memory error that no recover() contains. That
+// is a C04 finding (owned by the robustness checks). Such flips are not executed (and are
+// counted) so that the C12 search continues behind them; set VERIF_C12_NOSCREEN=1 to run
+// them once the decoders bound these allocations. lengthBeyond reports, more broadly, any
+// element whose length exceeds the buffer (used to keep the copying WireReader off them).
+func fatalAllocation(buf []byte) (fatal, lengthBeyond bool) {
+	steps := 0
+	var scan func(lo, hi, depth int)
+	scan = func(lo, hi, depth int) {
+		for off := lo; off < hi && steps < 4096; steps++ {
 			typ, n1, _, err := tw.ReadVarNum(buf[:hi], off)
 			if err != nil {
-				return false
+				return
 			}
 			l, n2, _, err := tw.ReadVarNum(buf[:hi], off+n1)
 			if err != nil {
-				return false
+				return
 			}
 			val := off + n1 + n2
-			if typ == tw.TName && l > uint64(len(buf)) {
-				return true
-			}
-			if l > uint64(hi-val) {
-				return false
-			}
-			p := append(append([]uint64(nil), path...), typ)
-			if depth < 6 && tw.NDNContainer(p) && typ != tw.TName {
-				if scan(val, val+int(l), p, depth+1) {
-					return true
+			if l > uint64(len(buf)) {
+				lengthBeyond = true
+				switch typ {
+				case tw.TName, tw.TKeyDigest, tw.TFinalBlockId, tw.TSignatureNonce:
+					fatal = true
 				}
 			}
-			off = val + int(l)
+			fits := l <= uint64(hi-val)
+			if depth < 8 && tw.NDNContainer([]uint64{typ}) { // (a Name too: its components' lengths matter to the copying reader)
+				end := hi
+				if fits {
+					end = val + int(l)
+				}
+				scan(val, end, depth+1)
+				if !fits {
+					return
+				}
+			}
+			if fits {
+				off = val + int(l)
+			} else {
+				off = val // the decoders do not advance over an element that overflows
+			}
 		}
-		return false
 	}
-	return scan(0, len(buf), nil, 0)
+	scan(0, len(buf), 0)
+	return
 }
 
 var noScreen = os.Getenv("VERIF_C12_NOSCREEN") == "1"
@@ -370,16 +385,23 @@ func execC12(c C12Case) (res evid.Result) {
 	flips := chooseFlips(b.joined, rp.root, must, c.Seed, flipBudget())
 	counts := map[string]int{}
 	work := append([]byte(nil), b.joined...)
-	for _, bit := range flips {
+	for fi, bit := range flips {
 		o, m := bit/8, byte(1)<<(bit%8)
 		work[o] ^= m
 		ob := inSpans(obligated, o)
-		if !noScreen && hugeNameLength(work) {
+		fatal, beyond := fatalAllocation(work)
+		if !noScreen && fatal {
 			work[o] ^= m
-			counts["flips-not-executed: Name length beyond the packet (fatal allocation, C04 finding)"]++
+			counts["flips-not-executed: Name/binary-field length beyond the packet (fatal up-front allocation, C04 finding)"]++
 			continue
 		}
-		d := decode(p.Kind, specific, enc.NewBufferReader(work))
+		// every fourth flip goes through the segmented reader
+		var rd enc.ParseReader = enc.NewBufferReader(work)
+		if fi%4 == 3 && len(offs) > 0 && !beyond {
+			rd = enc.NewWireReader(segment(work, offs))
+			counts["flips-decoded-from-segments"]++
+		}
+		d := decodeOpt(p.Kind, specific, rd, false)
 		outcome := ""
 		switch {
 		case d.panicked:
